@@ -83,6 +83,16 @@ def gen_cases(tier, seed):
         QQ = lambda *acts: [{'at': 'q', 'act': list(a)} for a in acts]  # noqa: E731
         plist += [QQ(['reincarnate'], ['resume', ['new-instance']]), QQ(['pause', 'p'], ['reincarnate'], ['resume', ['new-instance']], ['play']),
                   QQ(['pause', 'p'], ['reincarnate'], ['play'], ['resume', ['new-instance']]), QQ(['reincarnate'], ['reincarnate'], ['resume', ['new-instance']])]
+        # the wake-up value is None (a value like any other: the continuation is called with it, not without an argument)
+        for s0 in range(0, ns + 1):
+            plist.append([{'at': s0, 'act': ['resume', [None]]}])
+            plist.append([{'at': s0, 'act': ['pause', 'p']}, {'at': 'q', 'act': ['resume', [None]]}, {'at': 'q', 'act': ['play']}])
+        # the stepping task of a paused process is cancelled and the process is played before that cancellation is delivered
+        for s0 in range(0, ns + 1):
+            plist.append([{'at': s0, 'act': ['pause', 'p']}, {'at': 'q', 'act': ['resume', ['while-paused']]}, {'at': 'q', 'act': ['abort_task']}, {'at': 'q+', 'act': ['play']},
+                          {'at': 'q', 'act': ['restart_task']}])
+            plist.append([{'at': s0, 'act': ['pause', 'p']}, {'at': 'q', 'act': ['abort_task']}, {'at': 'q+', 'act': ['play']}, {'at': 'q', 'act': ['restart_task']},
+                          {'at': 'q', 'act': ['resume', ['after']]}])
         # an observer that pauses the process when it is told that it waits (the pause is requested inside the move into the wait)
         for k in (1, 2):
             plist.append([{'at': ['listener', 'waiting', k], 'act': ['pause', 'p']}])
